@@ -8,14 +8,16 @@ from . import common as C
 FORMULAS = ["TranscriptEquivalence", "BackendSaw", "RequestMetadata", "TranscriptEquivalenceHTTP", "BackendSawHTTP", "RequestMetadataHTTP"]
 
 
-def design_check(scratch):
+def design_check(scratch, tier="quick"):
     jobs = {}
     with cf.ThreadPoolExecutor(max_workers=4) as ex:
+        if tier != "quick":
+            jobs["Proxy_MCbig"] = ex.submit(C.tlc, scratch, "Proxy_MC.tla", "Proxy_MCbig.cfg", 4, None, 3000, None, None, "Proxy_MCbig")
         for n in ["Proxy_MC", "Proxy_Direct", "Proxy_Neg_NoHalfClose", "Proxy_Neg_FirstMessage", "Proxy_Neg_JoinBeforeError"]:
             jobs[n] = ex.submit(C.tlc, scratch, "Proxy_MC.tla", n + ".cfg", 2, None, 900, None, None, n)
         res = {k: f.result() for k, f in jobs.items()}
     states = trans = 0
-    for n in ["Proxy_MC", "Proxy_Direct"]:
+    for n in ["Proxy_MC", "Proxy_Direct"] + (["Proxy_MCbig"] if tier != "quick" else []):
         C.tlc_ok(res[n], n)
         if C.tlc_violated(res[n]):
             raise C.Infra("%s violated:\n%s" % (n, res[n]["out"][-2000:]))
@@ -166,7 +168,7 @@ def run(prop, tier, replay=None):
             cases = rp["cases"]
             design = dict(states=0, transitions=0, neg_guards=0)
         else:
-            design = design_check(scratch)
+            design = design_check(scratch, tier)
             cases = build_cases(scratch, rnd, tier)
         with open(cpath, "w") as f:
             for c in cases:
